@@ -239,7 +239,7 @@ func onPoint(kind int, addr any, site string) {
 			return
 		}
 		op = &pendOp{kind: vshim.KYield, site: site}
-	case vshim.KRead, vshim.KWrite:
+	case vshim.KRead, vshim.KWrite, vshim.KSyncR, vshim.KSyncW:
 		if x.cfg.GateOnly || (!x.cfg.AllPoints && !relevantSites[site]) {
 			x.apply(t, op)
 			return
@@ -490,6 +490,18 @@ func (x *Exec) apply(t *Thread, o *pendOp) {
 			}
 		}
 		x.lastW[o.addr] = &access{t.ID, t.vc[t.ID], o.site}
+	case vshim.KSyncR:
+		// internally synchronised object: acquire edge, no race check
+		x.note(o.addr, t.ID, false, o.site)
+		if v := x.lockVC[o.addr]; v != nil {
+			join(t.vc, v)
+		}
+	case vshim.KSyncW:
+		x.note(o.addr, t.ID, true, o.site)
+		if v := x.lockVC[o.addr]; v != nil {
+			join(t.vc, v)
+		}
+		x.lockVC[o.addr] = clone(t.vc)
 	case vshim.KChanSend:
 		if !x.chClosed[o.addr] {
 			x.chVC[o.addr] = append(x.chVC[o.addr], clone(t.vc))
@@ -771,6 +783,10 @@ func KindName(k int) string {
 		return "chan-done"
 	case KLockWait:
 		return "Lock-queued"
+	case vshim.KSyncR:
+		return "sync-load"
+	case vshim.KSyncW:
+		return "sync-store"
 	}
 	return fmt.Sprint(k)
 }
